@@ -7,7 +7,7 @@ From SV Require Import Model.Common Model.TfUtf8 Model.TfUnescape Model.Template
      Model.TinyRegex Model.Transforms
      Spec.TfUtf8Spec Spec.TfUnescapeSpec Spec.TransformsSpec
      Proofs.TfUtf8Proofs Proofs.TfUnescapeProofs Proofs.TemplateProofs Proofs.TfStringFacts
-     Proofs.ExtractorProofs Proofs.TransformsProofs.
+     Proofs.ExtractorProofs Proofs.PatternProofs Proofs.TransformsProofs.
 From Coq Require Import Permutation.
 Open Scope N_scope.
 
@@ -105,6 +105,27 @@ Proof.
          (fun Hm => extract_tail_edge_out l lab r rest t _ Hl Hf Hm eq_refl)).
 Qed.
 Print Assumptions C15_extract_tail_edge.
+
+(* patterns: "left*right" and "left[class]right" (brackets, asterisks and backslashes of the boundaries
+   escaped) compile to exactly these boundaries, and the class table holds exactly the listed bytes
+   and ranges ('-' first or last is itself; a leading '^' complements) *)
+Theorem C15_pattern_star : forall head l r maxr,
+  new_string_extractor_simple head (pat_escape l ++ 42 :: pat_escape r) maxr =
+  Ok {| ex_head := head; ex_left := l; ex_right := r; ex_max := maxr; ex_table := None |}.
+Proof. exact new_extractor_star. Qed.
+Print Assumptions C15_pattern_star.
+
+Theorem C15_pattern_class : forall head l r maxr (neg lead : bool) items (trail : bool),
+  Forall item_ok_class items ->
+  let body := class_body lead items trail in
+  (neg = false -> match body with [] => False | c :: _ => c <> 94 end) ->
+  exists tb,
+    new_string_extractor_simple head
+      (pat_escape l ++ 91 :: pat_escape ((if neg then [94] else []) ++ body) ++ 93 :: pat_escape r) maxr =
+    Ok {| ex_head := head; ex_left := l; ex_right := r; ex_max := maxr; ex_table := Some tb |} /\
+    forall c : N, tb c = xorb neg (in_class lead items trail c).
+Proof. exact new_extractor_class. Qed.
+Print Assumptions C15_pattern_class.
 
 (* "always trimmed": never a panic (also for a label of blanks only), exactly the blanks at both ends go *)
 Theorem C15_trim_spec : forall s,
@@ -295,6 +316,29 @@ Theorem C15_unescape_transform_spec : forall loc r, (loc < nfields r)%nat ->
      (length (getf r' loc) <= length (getf r loc))%nat).
 Proof. exact unescape_transform_lemma. Qed.
 Print Assumptions C15_unescape_transform_spec.
+
+(* ---- replace / extract: only the plumbing around the regexp oracle ---- *)
+
+Theorem C15_replace_spec : forall O loc pat repl r, (loc < nfields r)%nat ->
+  let r' := run_replace O loc pat repl r in
+  (getf r loc = [] -> r' = r) /\
+  (getf r loc <> [] -> getf r' loc = o_re_replace O pat repl (getf r loc)) /\
+  (forall j, j <> loc -> getf r' j = getf r j) /\ nfields r' = nfields r.
+Proof. exact replace_spec_lemma. Qed.
+Print Assumptions C15_replace_spec.
+
+Theorem C15_extract_regex_spec : forall O loc pat locs r,
+  (o_re_find O pat (getf r loc) = None -> run_extractre O loc pat locs r = Ok r) /\
+  (forall idx, o_re_find O pat (getf r loc) = Some idx ->
+     run_extractre O loc pat locs r = run_extractre_loop locs idx (getf r loc) r) /\
+  (forall locs' idx v r0, run_extractre_loop (None :: locs') idx v r0 = run_extractre_loop locs' (tl idx) v r0) /\
+  (forall l locs' a b idx v r0, (a < 0 \/ b < 0)%Z ->
+     run_extractre_loop (Some l :: locs') ((a, b) :: idx) v r0 = run_extractre_loop locs' idx v r0) /\
+  (forall l locs' a b idx (v : bytes) r0, (0 <= a <= b)%Z -> (b <= Z.of_nat (length v))%Z ->
+     run_extractre_loop (Some l :: locs') ((a, b) :: idx) v r0 =
+     run_extractre_loop locs' idx v (set_field r0 l (firstn (Z.to_nat (b - a)) (skipn (Z.to_nat a) v)))).
+Proof. exact extractre_spec_lemma. Qed.
+Print Assumptions C15_extract_regex_spec.
 
 (* ---- no record makes a well-formed program panic ---- *)
 
